@@ -455,36 +455,7 @@ func Check(opt Options, writeBaseline bool) int {
 	if writeBaseline {
 		v.Missing = nil
 	}
-	// retry baseline obligations that failed without a counterexample (unknown/timeout) with a longer timeout
-	if len(v.Violations) > 0 && !writeBaseline {
-		retry := false
-		for _, vi := range v.Violations {
-			if vi.Obl != nil && (vi.Obl.Detail != "sat" || vi.Obl.Weak) && vi.Obl.Kind != "canary" {
-				// (a ground-stage model of an instantiated query is no counterexample of the quantified one: try again with
-				// a longer quantified stage before anything is reported)
-				retry = true
-			}
-		}
-		if retry {
-			o2 := opt
-			if o2.Timeout == 0 {
-				o2.Timeout = 20 * time.Second
-				if opt.Tier == "thorough" {
-					o2.Timeout = 120 * time.Second
-				}
-			}
-			o2.Timeout *= 3
-			o2.Seed = opt.Seed + 1
-			fmt.Printf("retrying with timeout %v after %d undischarged obligation(s) without counterexample\n", o2.Timeout, len(v.Violations))
-			rr2 := Run(o2, own, used, all)
-			if len(rr2.Errors) == 0 {
-				v2 := Decide(opt, rr2, bl, findings)
-				if len(v2.Violations) < len(v.Violations) {
-					rr, v = rr2, v2
-				}
-			}
-		}
-	}
+	// (undecided queries are retried inside Run, per query and within a wall-clock budget)
 	printReport(opt, rr, v)
 	for _, o := range rr.Obls {
 		if o.Detail == "error" {
